@@ -7,7 +7,7 @@ RULE = ("TV: sessions A (message -> frame -> message -> frame -> message) over a
         "text), MSM / bias-list edge inputs; sessions B (hostile CRC-valid frame -> message -> frame -> message) from the C02 generators; TLC "
         "judges: same typed variant, re-encoding accepted, twice-decoded equal (digest + PartialEq), byte-identical re-encoding whenever the "
         "spec's Clean(m0) holds (no duplicate satellite / (satellite, signal) keys, bias-list signals in the SSR table of SigTables), B: fixed "
-        "point up to stable regrouping by satellite for 1059/1065; MC: Builder and BitIO models of the two directions; "
+        "point up to stable regrouping by satellite for 1059/1065; field level (both build profiles): for every real-valued data field and the wrap-around aliases of zero / the range ends as input, the written pattern is reproduced by decoding and re-encoding it; MC: Builder and BitIO models of the two directions; "
         "non-trivial = session whose first build succeeded; distinct = distinct first frames")
 
 
@@ -30,6 +30,15 @@ def run(chk):
     r = tv("Trace_Roundtrip", "Trace_Roundtrip.cfg", t, shards=12, tag="C01")
     chk.add_tv("roundtrip", r)
     report_rejects(chk, r, sig, lambda ev, d: "round trip session violates the normal-form specification (%s %s)" % (ev["ev"], ev.get("variant", ev.get("number"))))
+    # the same normal form at field level for inputs the message generators do not reach: every real-valued field fed the
+    # wrap-around aliases of zero and of its range ends (k = +-m*2^(w-1), +-m*2^w, +-1; huge magnitudes)
+    for profile in ("release", "relchk"):
+        tn = record("fieldnf", chk.path("fieldnf-%s.ndjson" % profile), profile=profile)
+        rn = tv("Trace_Fields", "Trace_Fields.cfg", tn, shards=12, tag="C01-nf-" + profile)
+        chk.add_tv("fieldnf[%s]" % profile, rn)
+        report_rejects(chk, rn, lambda ev, d: "[%s] FieldNf %s enc_err=%s rt_err=%s same=%s panic=%s" % (profile, ev.get("id"), ev.get("enc_err"), ev.get("rt_err"), ev.get("p") == ev.get("q"), bool(ev.get("panic"))),
+                       lambda ev, d: "[%s] field %s: the pattern written for input k=%s (grid units) is not reproduced by decoding and re-encoding it: %s -> %s %s" % (
+                           profile, ev.get("id"), ev.get("k"), ev.get("p"), ev.get("q"), ev.get("panic") or ""))
     firsts = set()
     a_ok = b_ok = a_clean_unknown = 0
     for ln, o in r["lines"]:
